@@ -18,7 +18,7 @@ CHUNK = {'quick': 1, 'thorough': 1}
 TIMEOUT = 3000
 OPS = ['split', 'split_no_overlap', 'trim', 'trim_easy', 'sample']
 RULE = ('case = one generated point set (1-4 clusters - Gaussian blobs or, every fourth set, uniform simplices/boxes facing each '
-        'other across a small gap -, optional sparse halo, d=2..5, n_points_min in '
+        'other across a small gap -, optional sparse halo, every sixteenth set shrunk to a scale where volumes are below the smallest double (unit=False), d=2..5, n_points_min in '
         '{None, d+1, 15, 30}, member class Ellipsoid or UnitCubeEllipsoidMixture); ALL operation sequences '
         'over {split, split(allow_overlap=False), trim(), trim(threshold=1), sample(50)} up to length 3 '
         '(quick) / 5 (thorough) - for every second point set appended to the fixed prefix split, split, sample - are '
@@ -45,6 +45,13 @@ def make_points(spec):
     cls = 'Ellipsoid' if (i // 8) % 2 == 0 or i % 3 == 0 else 'UnitCubeEllipsoidMixture'
     pts = []
     flat = (i % 8 in (4, 5))
+    tiny = (i % 16 == 10)
+    if tiny:
+        # the same clouds at a scale where ellipsoid volumes are far below the smallest double (log-volume < -745):
+        # legitimate for a union that is not restricted to the unit cube, and the volume test of split() must still work
+        d = 3 + (i // 16) % 2
+        k = [1, 2, 1, 3][(i // 16) % 4]
+        cls = 'Ellipsoid'
     if flat:
         d = 2       # the window in which a no-overlap split increases the volume exists in two dimensions
     scale = rng.uniform(0.06, 0.1)
@@ -72,6 +79,13 @@ def make_points(spec):
                 pts.append(np.full(d, 0.5) + np.vstack([verts, w @ verts]))
             else:
                 pts.append(c + rng.uniform(0.05, 0.1) * (rng.random((n, d)) - 0.5))      # a uniform box elsewhere
+        elif tiny:
+            # uniform balls: splitting one in two gives children whose ellipsoids together are larger than the parent's,
+            # so a correct split() has to refuse at this scale exactly as it does at ordinary scale
+            n = int(rng.integers(150, 300))
+            x = rng.normal(size=(n, d))
+            x *= (rng.random(n) ** (1.0 / d) / np.linalg.norm(x, axis=1))[:, None]
+            pts.append(c + float(np.mean(s)) * x)
         else:
             pts.append(c + s * rng.normal(size=(n, d)))
     if i % 5 == 0:   # sparse halo: a low-density record that trim() may drop
@@ -97,13 +111,15 @@ def make_points(spec):
         pts = [np.array(c) + 0.02 * rng.normal(size=(int(rng.integers(2 * npm_s, 3 * npm_s)), d)) for c in corners[:k]]
     p = np.clip(np.vstack(pts), 1e-6, 1 - 1e-6)
     rng.shuffle(p)
+    if tiny:
+        p = (p - 0.5) * (1e-120 if d == 3 else 1e-90)
     enlarge = float([1.1, 1.05, 1.5][i % 3])
     if flat:
         enlarge, npm = float([1.05, 1.1][i % 2]), [None, 15][(i // 8) % 2]
     if starve:
         npm = npm_s
     return p, dict(d=d, clusters=k, n_points_min=npm, bound_class=cls, n=len(p),
-                   enlarge_per_dim=enlarge, halo=(i % 5 == 0), flat=bool(flat))
+                   enlarge_per_dim=enlarge, halo=(i % 5 == 0), flat=bool(flat), unit=not tiny)
 
 
 def _digest_bound(b):
@@ -134,6 +150,7 @@ class Explorer:
     def __init__(self, spec, points, meta):
         self.spec, self.points, self.meta = spec, points, meta
         self.obs = {'operations': 0, 'sequences': 0, 'outcomes': {}, 'max_records': 0,
+                    'operations_at_sub_double_volume': 0,
                     'points_enclosure_tests': 0}
         self.viols = {}
         self.nontrivial = 0
@@ -196,6 +213,7 @@ class Explorer:
                      '%s raised %r at %s:%s' % (op, e, tb.filename.split('/')[-1], tb.name), seq)
             return False, model, 'raised'
         self.obs['operations'] += 1
+        self.obs['operations_at_sub_double_volume'] += int(before_sum < -745.0)
         outcome = {True: 'accepted', False: 'refused', None: 'done'}[ret if ret is None else bool(ret)]
         k = op + ':' + outcome
         self.obs['outcomes'][k] = self.obs['outcomes'].get(k, 0) + 1
@@ -296,7 +314,8 @@ class Explorer:
         cls = Ellipsoid if self.meta['bound_class'] == 'Ellipsoid' else UnitCubeEllipsoidMixture
         rng = np.random.default_rng(np.random.SeedSequence([self.spec['seed'], 1313, self.spec['i']]))
         u = Union.compute(self.points, enlarge_per_dim=self.meta['enlarge_per_dim'],
-                          n_points_min=self.meta['n_points_min'], bound_class=cls, rng=rng)
+                          n_points_min=self.meta['n_points_min'], bound_class=cls, rng=rng,
+                          unit=self.meta.get('unit', True))
         self.all_sorted = _sorted_rows(self.points)
         if not self.check_records(u, [], u.n_points_min):
             return
